@@ -539,11 +539,35 @@ func returnsOf(fn *ssa.Function) []*ssa.Return {
 		if b == fn.Recover || (b.Index != 0 && len(b.Preds) == 0) {
 			continue // the synthetic recover block is not a normal exit
 		}
-		if r, ok := lastInstr(b).(*ssa.Return); ok {
+		if r, ok := lastInstr(b).(*ssa.Return); ok && !blockDead(b) {
 			out = append(out, r)
 		}
 	}
 	return out
+}
+
+// blockDead: the block is only reachable through a branch on a constant
+// condition taken the impossible way (`if false && ...`, a debugging switch):
+// it can never execute.
+func blockDead(b *ssa.BasicBlock) bool {
+	for d := b.Idom(); d != nil; d = d.Idom() {
+		ifi, ok := lastInstr(d).(*ssa.If)
+		if !ok || len(d.Succs) != 2 || d.Succs[0] == d.Succs[1] {
+			continue
+		}
+		k, isC := constBool(ifi.Cond)
+		if !isC {
+			continue
+		}
+		t, f := d.Succs[0], d.Succs[1]
+		if k && edgeDominates(d, f, b) && !edgeDominates(d, t, b) {
+			return true
+		}
+		if !k && edgeDominates(d, t, b) && !edgeDominates(d, f, b) {
+			return true
+		}
+	}
+	return false
 }
 
 // isErrorType reports whether t is the predeclared error interface.
